@@ -40,7 +40,38 @@ def run_case(cs, ctx):
     ctx.sample(lc.brief(r))
 
 
+KF1_SPEC = {'na': 2, 'ns': 3, 'np': 3, 'nl': 3, 'st': [[[1], [2], [3]], [[2], [1], [3]], [[3], [1], [2]]],
+            'plq': [0, 0, 0], 'puq': [1, 1, 1], 'plec': [1, 2, 3], 'llq': [0, 0, 0], 'lt': [1, 1, 1], 'luq': [1, 1, 1],
+            'lec': [[[1], [2], [3]], [[2], [1], [3]], [[3], [2], [1]]], 'shape': 'known_finding_probe'}
+KF1_OPTS = {'twopl': True, 'pc': False, 'stab': False, 'crits': [['maxsize', 1, []], ['mincost', 2, [1000000007]]]}
+
+
+def known_finding_probe(ctx):
+    """KF1 (known_findings.json): re-run the listed witness; while it still fails the
+    runner prints the KNOWN-FINDING line, once it is repaired the line disappears."""
+    import random
+    from .. import engine as en
+    ref = en.reference(KF1_SPEC, KF1_OPTS)
+    ex = en.run_lp(KF1_SPEC, KF1_OPTS, ctx.workdir, random.Random(0), inject=False, noise=False)
+    findings, _ = en.judge_lp(ex, ref, counters={})
+    ctx.cnt('known_finding_probes')
+    case = {'cs': 'KF1', 'profile': 'known_finding_probe', 'spec': KF1_SPEC, 'opts': KF1_OPTS}
+    case.update(en.light(ex))
+    for f in findings:
+        ctx.finding(f, case)
+
+
+def run_shard(ctx):
+    from ..worker import generic_loop
+    import sys
+    if ctx.shard == 0:
+        known_finding_probe(ctx)
+    generic_loop(sys.modules[__name__], ctx)
+
+
 def replay(w, ctx):
+    if w['case'].get('cs') == 'KF1':
+        return known_finding_probe(ctx)
     run_case(w['case']['cs'], ctx)
 
 
